@@ -39,6 +39,11 @@ CmpSet == { RFrac(1, 1), RFrac(3, 1), RFrac(-2, 1), RFrac(1, 2), RFrac(5, 1), RF
 ActsCmp == {"cmp", "bin", "getitem", "unary"}
 RsCat == { <<4>>, <<2, 2>>, <<6>>, <<3, 2>>, <<1, 2>>, <<2, 1>>, <<2, 3>> }
 NoRs == {}
+Tiles == { <<2>>, <<2, 1>>, <<1, 2>>, <<2, 2>>, <<2, 1, 2>> }
+NoTiles == {}
+ActsCplx == {"conjugate", "real", "imag", "fft", "ifft", "bin", "getitem"}
+PoolCx3 == << [k |-> "U", es |-> <<2, 2>>, dt |-> "c"], [k |-> "U", es |-> <<4>>], [k |-> "U", es |-> <<1>>, dt |-> "c"] >>
+ActsMore == {"tile", "diag", "triu", "tril", "trace", "zeros", "ones", "getitem"}
 
 ActsArith == {"bin", "bina", "bins", "ibin", "ibina", "ibins", "powi", "unary"}
 ActsBin == {"bin", "bina", "bins"}
